@@ -143,8 +143,8 @@ def encode_len(n, w, bo):
 
 def init_image(contents, c, w, bo):
     n = len(contents)
-    return (encode_len(n, w, bo) + list(contents) + [0xe0 + i for i in range(c - n)]
-            + [0xc0 + i for i in range(SLACK)])
+    return (encode_len(n, w, bo) + list(contents) + [0xe0 + i % 16 for i in range(c - n)]
+            + [0xc0 + i % 16 for i in range(SLACK)])
 
 
 def req_line(ln, bo, elem, c, contents, seq):
@@ -312,7 +312,7 @@ def boundary_lines():
         # u16: 65534 elements
         contents = tuple((i * 13 + 5) % 256 for i in range(65534))
         for seq in ([('push', 0x61)], [('push', 0x61), ('push', 0x62)], [('ins', 0, 0x80)], [('erasr', 1, 65534)],
-                    [('insn', 65534, 1, 7)], [('rsz', 65535)], [('insn', 0, 2, 7)]):
+                    [('insn', 65534, 1, 7)], [('rsz', 65535)], [('insn', 65534, 2, 7)]):
             out.append(req_line('u16', bo, 'char', 65600, contents, seq))
     return out
 
@@ -605,7 +605,7 @@ def correspond(chk, configs):
         exe = dict(exes).get(cfg)
         final, ops, r = shrink(model, (cfg, exe), rec['line'])
         case = make_case(model, final, cfg, ops)
-        key = (case['op'], case.get('last'), case.get('pos'), case['len'], case['bo'])
+        key = (case['op'], case.get('first'), case.get('last'), case.get('pos'))
         if key in seen:
             continue
         seen.add(key)
